@@ -1127,7 +1127,11 @@ class PendingFunctionDef(_PendingCompoundStmt[FunctionDef]):
                     orelse=hook_name,
                 )
 
-        return [self.nsp.get_assign(self.node.name, body_expr)]
+        return [
+            self.nsp.get_assign(
+                getattr(self.node, "private_name", self.node.name), body_expr
+            )
+        ]
 
 
 class PendingReturn(PendingNode[Return]):
@@ -1355,7 +1359,11 @@ class PendingClassDef(_PendingCompoundStmt[ClassDef]):
         class_value: expr = tmp_class_name
         for decorator in reversed(class_decorators):
             class_value = Call(func=decorator, args=[class_value], keywords=[])
-        return_list.append(self.nsp.get_assign(self.node.name, class_value))
+        return_list.append(
+            self.nsp.get_assign(
+                getattr(self.node, "private_name", self.node.name), class_value
+            )
+        )
         return return_list
 
 
